@@ -295,7 +295,7 @@ impl CardanoBlocksProofsMessage {
 }
 
 // ---- reconstruction of the signed protocol message from the VERIFIED value (mithril-client MessageBuilder) -------------
-pub enum ProtocolMessagePartKey { CardanoTransactionsMerkleRoot, LatestBlockNumber, CardanoBlocksTransactionsMerkleRoot, CardanoBlocksTransactionsBlockNumberOffset, Other }
+pub enum ProtocolMessagePartKey { CardanoTransactionsMerkleRoot, LatestBlockNumber, CardanoBlocksTransactionsMerkleRoot, CardanoBlocksTransactionsBlockNumberOffset, CardanoStakeDistributionEpoch, CardanoStakeDistributionMerkleRoot, Other }
 #[verifier::external_body] pub struct ProtocolMessage { _p: core::marker::PhantomData<u8> }
 pub uninterp spec fn parts(m: &ProtocolMessage) -> Map<ProtocolMessagePartKey, Seq<char>>;
 impl ProtocolMessage {
@@ -383,6 +383,41 @@ impl VerifToString for str {
     /// `str::to_string`
     #[verifier::external_body]
     fn verif_to_string(&self) -> (r: String) ensures r@ == self@ { self.to_string() }
+}
+
+// ---- stake distribution: the message is rebuilt from the SERVED distribution's own Merkle root and epoch ------------------
+#[verifier::external_body] pub struct StakeDistribution { _p: core::marker::PhantomData<u8> }
+#[verifier::external_body] pub struct MKTree { _p: core::marker::PhantomData<u8> }
+#[derive(Clone, Copy)] pub struct Epoch(pub u64);
+pub struct MithrilError {}
+pub uninterp spec fn stake_tree_root(d: &StakeDistribution) -> Option<Seq<char>>;   // root (hex) of the Merkle tree over the (pool id, stake) leaves - leaf encoding: unit stake_leaf
+pub uninterp spec fn tree_root(t: &MKTree) -> Option<Seq<char>>;
+pub struct CardanoStakeDistribution { pub epoch: Epoch, pub stake_distribution: StakeDistribution }
+pub struct CardanoStakeDistributionSignableBuilder {}
+impl Clone for StakeDistribution { #[verifier::external_body] fn clone(&self) -> (r: Self) ensures r == *self { unimplemented!() } }
+impl CardanoStakeDistributionSignableBuilder {
+    /// mithril-common: MKTree::new over `format!("{}{}", pool_id, stake)` leaves (iterator map/collect + external MMR)
+    #[verifier::external_body]
+    pub fn compute_merkle_tree_from_stake_distribution(pools_with_stake: StakeDistribution) -> (r: Result<MKTree, MithrilError>)
+        ensures r is Ok ==> tree_root(&r->Ok_0) == stake_tree_root(&pools_with_stake)
+    { unimplemented!() }
+}
+impl MKTree {
+    #[verifier::external_body]
+    pub fn compute_root(&self) -> (r: Result<RootHex, MithrilError>) ensures r is Ok ==> tree_root(self) == Some(r->Ok_0.hex@) { unimplemented!() }
+}
+impl Epoch {
+    #[verifier::external_body]
+    pub fn to_string(&self) -> (r: String) ensures r@ == u64_str(self.0) { unimplemented!() }
+}
+impl MessageBuilder {
+    //@extract file=mithril-client/src/message.rs fn=compute_cardano_stake_distribution_message
+    //@ rewrite /MithrilResult<ProtocolMessage>/ => /Result<ProtocolMessage, MithrilError>/
+    //@ spec ensures ret is Ok ==> stake_tree_root(&cardano_stake_distribution.stake_distribution) is Some
+    //@ spec     && parts(&ret->Ok_0) == parts(&certificate.protocol_message)
+    //@ spec         .insert(ProtocolMessagePartKey::CardanoStakeDistributionEpoch, u64_str(cardano_stake_distribution.epoch.0))
+    //@ spec         .insert(ProtocolMessagePartKey::CardanoStakeDistributionMerkleRoot, stake_tree_root(&cardano_stake_distribution.stake_distribution)->Some_0)
+    //@end
 }
 
 } // verus!
